@@ -1225,6 +1225,45 @@ def tie_C11(ctx):
                      expected=img, actual=o[1])
         elif o[4] != "true" or o[5] != o[6] or o[7] != o[8]:
             ctx.fail("serde", f"{g}: restored generator differs from the original", c)
+    # the same through a HUMAN-READABLE serde format (is_human_readable() = true; tools: harness/src/hrfmt.rs): a hand-written
+    # Serialize/Deserialize may take another path there.  States with short words (leading zero digits), zero words, extremes.
+    hr, hmeta = [], []
+    for g in SERDE:
+        info = GENS[g]
+        nb = 8 if g == "SplitMix64" else info["seed"]
+        starts = []
+        if "blk" not in info:
+            wsz = info["w"] // 8 if g != "SplitMix64" else 8
+            for _ in range(ctx.scale(10, 80)):
+                b = b"".join((rng.getrandbits(8 * wsz) >> rng.choice([0, 1, 4, 5, 8, 12, 16, 8 * wsz - 4, 8 * wsz - 1])).to_bytes(wsz, "little")
+                             for _ in range(nb // wsz))
+                starts.append([f"de 0 {g} {b.hex()}"])
+            starts += [[f"de 0 {g} {s_.hex()}"] for _, s_ in coincidence_seeds(rng, nb, k=1)[:6]]
+            starts += [[f"de 0 {g} {bytes(nb).hex()}"], [f"de 0 {g} {'ff' * nb}"]]
+        for i in range(ctx.scale(8, 60)):
+            pre = history(rng, g, rng.randrange(0, 5))
+            if "blk" in info:
+                nat1 = "u64" if info["cls"] == "block64" else "u32"
+                pre = [nat1] * rng.choice([0, 1, 255, 256, 257, rng.randrange(600)]) + pre + (["u32"] if info["cls"] == "block64" and i % 2 else [])
+            starts.append([f"new 0 {g} seed {pick_seed(rng, info['seed']).hex()}"] + op_lines(0, pre))
+        for st_ in starts:
+            c = st_ + ["ser 0", "rth 1 0", "ser 0", "ser 1", "eq 0 1"]
+            at = len(c) - 5
+            for o in history(rng, g, rng.randrange(2, 5)):
+                c += op_lines(0, [o]) + op_lines(1, [o])
+            c += ["ser 0", "ser 1"]
+            hr.append(c); hmeta.append((g, at))
+            ctx.dist[f"{g}:human-readable-roundtrip"] += 1
+    hh = ctx.real("round trip through a human-readable serde format at arbitrary points / for arbitrary valid states", hr)
+    for (g, at), c, o in zip(hmeta, hr, hh):
+        if o[0] != "ok" or o[at + 1] == "unsupported":
+            continue
+        if o[at + 1] != "ok":
+            ctx.fail("serde", f"{g}: deserializing its own human-readable image failed", c, expected="ok", actual=o[at + 1]); continue
+        pairs = [(o[i], o[i + 1]) for i in range(at + 5, len(c) - 2, 2)]
+        if o[at] != o[at + 2] or o[at] != o[at + 3] or o[at + 4] != "true" or not all(x == y for x, y in pairs) or o[-1] != o[-2]:
+            ctx.fail("serde", f"{g}: the generator restored from a human-readable serde image is not the original "
+                     f"(state image / == / future differ)", c, expected=o[at], actual=o[at + 3])
     # malformed images: truncated, and an invalid bool for Isaac64Rng
     mal = []
     for g in SERDE:
